@@ -46,6 +46,9 @@ fn choices_of(ch: &Value) -> Choices {
         tags: ch["tags"].as_str().unwrap().to_string(),
         overlap: ch["overlap"].as_u64().unwrap() == 1,
         chunk: ch["chunk"].as_u64().unwrap() as usize,
+        meta: ch["meta"].as_u64().unwrap_or(0) as u8,
+        fgt: bytes_of(&ch["fgt"]),
+        fhf: bytes_of(&ch["fhf"]),
     }
 }
 
@@ -62,7 +65,7 @@ fn trip_font(vecs: &[(u8, Vec<u8>)]) -> Vec<u8> {
             enc::GlyphStreams { nc: vec![0, 1], np: vec![1], fl: vec![*fl], gl, ..Default::default() }
         })
         .collect();
-    let xglyf = enc::glyf_table_bytes(&per, 1, false);
+    let xglyf = enc::glyf_table_bytes(&per, 1, None);
     let lsbs = vec![0i16; n - 1];
     let mk = |tag: &str, ver: u8, orig_len: u32, tlen: Option<u32>, data: Vec<u8>| DirTable { tag: tag_u32(tag), explicit: false, ver, orig_len, tlen, data };
     let plain = |tag: &str, d: Vec<u8>| DirTable { tag: tag_u32(tag), explicit: false, ver: 0, orig_len: d.len() as u32, tlen: None, data: d };
@@ -112,6 +115,9 @@ struct Stats {
     lemma_cases: u64,
     /// composite glyphs that went through the glyf transform: where each per-component property sat
     composites: BTreeMap<String, u64>,
+    /// container-level features of the encoded files (collections of unlike members, overlap bitmap, metadata
+    /// blocks, spelled-out tags of transformed tables, values at the ends of their fields, every known tag)
+    features: BTreeMap<String, u64>,
 }
 
 /// Position bookkeeping of the composite glyphs of one generated font (measured on the generator's output, i.e.
@@ -243,6 +249,107 @@ fn note_boundaries(b: &mut BTreeMap<String, u64>, counts: &mut BTreeSet<usize>, 
     }
 }
 
+/// Container-level bookkeeping of one encoded file (measured on the encoder's input and output only).
+fn note_features(m: &mut BTreeMap<String, u64>, e: &enc::Encoded, ch: &Choices) {
+    let f = &e.fonts;
+    let glyf_t = tag_u32("glyf");
+    if f.len() > 1 {
+        if f.iter().any(|x| x.n != f[0].n) {
+            bump(m, "coll.members_differ_in_numGlyphs", 1);
+            if f.iter().any(|x| (x.n + 31) / 32 != (f[0].n + 31) / 32) {
+                bump(m, "coll.members_differ_in_bitmap_words", 1);
+            }
+        }
+        if f.iter().any(|x| x.nhm != f[0].nhm) {
+            bump(m, "coll.members_differ_in_numberOfHMetrics", 1);
+        }
+        if f.iter().any(|x| x.src_loca_long != f[0].src_loca_long) {
+            bump(m, "coll.members_differ_in_loca_format", 1);
+        }
+        if f.iter().any(|x| x.glyf_transformed != f[0].glyf_transformed) {
+            bump(m, if f[0].glyf_transformed { "coll.mixed_transform.first_transformed" } else { "coll.mixed_transform.first_null" }, 1);
+        }
+        if f.iter().any(|x| x.hmtx_flags != f[0].hmtx_flags) {
+            bump(m, "coll.members_differ_in_hmtx_transform", 1);
+        }
+        if f.len() >= 3 {
+            bump(m, "coll.three_members", 1);
+        }
+        // which directory entry is each member's glyf: shared, and is member 0's glyf the first glyf entry?
+        let glyf_of: Vec<Option<u16>> = e.font_idx.iter().map(|idx| idx.iter().copied().find(|&i| e.entries[i as usize].0 == glyf_t)).collect();
+        let first_glyf = e.entries.iter().position(|x| x.0 == glyf_t).map(|x| x as u16);
+        if glyf_of.len() >= 2 && glyf_of[0].is_some() && glyf_of.iter().skip(1).any(|g| *g == glyf_of[0]) {
+            bump(m, "coll.glyf_shared", 1);
+        }
+        if glyf_of.len() >= 3 && glyf_of[0].is_some() && glyf_of[2] == glyf_of[0] && glyf_of[1] != glyf_of[0] {
+            bump(m, "coll.glyf_shared_by_first_and_third_only", 1);
+        }
+        if glyf_of[0].is_some() && glyf_of[0] != first_glyf {
+            bump(m, "coll.first_member_glyf_not_first_in_directory", 1);
+        }
+    }
+    for x in f.iter().filter(|x| x.glyf_transformed) {
+        if ch.overlap {
+            bump(m, "overlap.bitmap_present", 1);
+            if x.overlap_bits.iter().any(|&b| b) {
+                bump(m, "overlap.bits_set", 1);
+            }
+            if (x.n + 7) / 8 != 4 * ((x.n + 31) / 32) {
+                bump(m, "overlap.length_differs_from_bbox_bitmap", 1);
+            }
+        }
+        if ch.tags == "explicitall" {
+            bump(m, "tags.transformed_glyf_spelled_out", 1);
+            if x.hmtx_flags != 0 {
+                bump(m, "tags.transformed_hmtx_spelled_out", 1);
+            }
+        }
+        for g in &x.recs {
+            let (mut px, mut py) = (0i32, 0i32);
+            for p in &g.pts {
+                for (v, d) in [(p.0 as i32, p.0 as i32 - px), (p.1 as i32, p.1 as i32 - py)] {
+                    if v == 32767 {
+                        bump(m, "ext.coordinate=32767", 1);
+                    }
+                    if v == -32768 {
+                        bump(m, "ext.coordinate=-32768", 1);
+                    }
+                    if d == 32767 {
+                        bump(m, "ext.delta=32767", 1);
+                    }
+                    if d == -32768 {
+                        bump(m, "ext.delta=-32768", 1);
+                    }
+                }
+                px = p.0 as i32;
+                py = p.1 as i32;
+            }
+            for c in &g.comps {
+                if c.gid == 65535 {
+                    bump(m, "ext.component_gid=65535", 1);
+                }
+                for a in [c.a1, c.a2] {
+                    if [-32768, 32767, 65535, -128, 127, 255].contains(&a) {
+                        bump(m, &format!("ext.component_arg={}", a), 1);
+                    }
+                }
+                if c.tr.contains(&-32768) && c.tr.contains(&32767) {
+                    bump(m, "ext.component_scale=both_ends", 1);
+                }
+            }
+        }
+        if x.hmtx_flags != 0 && x.lsb.contains(&-32768) {
+            bump(m, "ext.elided_lsb=-32768", 1);
+        }
+        if x.adv.contains(&65535) {
+            bump(m, "ext.advance=65535", 1);
+        }
+    }
+    if ch.meta >= 1 {
+        bump(m, &format!("meta.blocks={}", ch.meta), 1);
+    }
+}
+
 fn bump(m: &mut BTreeMap<String, u64>, k: &str, by: u64) {
     *m.entry(k.to_string()).or_insert(0) += by;
 }
@@ -261,6 +368,7 @@ fn replay(cases: &str, out: &str) {
         glyph_counts: BTreeSet::new(),
         lemma_cases: 0,
         composites: BTreeMap::new(),
+        features: BTreeMap::new(),
     };
     let mut mism = 0u64;
     for c in read_ndjson(cases) {
@@ -318,12 +426,20 @@ fn replay(cases: &str, out: &str) {
                 let style = if choices.u16p == "word" { 1 } else { 0 };
                 let zlen = ch["zlen"].as_u64().unwrap_or(13) as usize;
                 let src_long = ch["loca"].as_u64().unwrap() == 1;
-                let srcs: Vec<SrcFont> = afonts.iter().enumerate().map(|(k, f)| synth::build(f, src_long, style, if k == 1 && coll == "other" { 1 } else { 0 }, zlen)).collect();
+                // per member: head.indexToLocFormat (`floca`), a name / feat / Feat salt for members that are fonts of their own
+                let floca = bytes_of(&ch["floca"]);
+                let own = matches!(coll, "other" | "sub" | "tri" | "mixt");
+                let srcs: Vec<SrcFont> = afonts
+                    .iter()
+                    .enumerate()
+                    .map(|(k, f)| synth::build_ov(f, floca.get(k).map(|&x| x == 1).unwrap_or(src_long), style, if own { k as u8 } else { 0 }, zlen, choices.overlap))
+                    .collect();
                 bump(&mut st.boundaries, &format!("dir.table_length={}", zlen), 1);
                 let mut rng = StdRng::seed_from_u64(0);
                 let e = enc::encode_woff2(&srcs, &choices, &mut rng);
                 for (k, v) in [("glyf", ch["glyf"].to_string()), ("hmtx", ch["hmtx"].to_string()), ("trip", choices.trip.clone()), ("u16", choices.u16p.clone()), ("bbox", choices.bbox.clone()),
-                    ("order", choices.order.clone()), ("tags", choices.tags.clone()), ("coll", coll.to_string()), ("nhm<n", (afonts[0].nhm < afonts[0].glyphs.len()).to_string())] {
+                    ("order", choices.order.clone()), ("tags", choices.tags.clone()), ("coll", coll.to_string()), ("nhm<n", (afonts[0].nhm < afonts[0].glyphs.len()).to_string()),
+                    ("meta", choices.meta.to_string()), ("overlap", (choices.overlap as u8).to_string())] {
                     bump(&mut st.choice_counts, &format!("{}={}", k, v), 1);
                 }
                 if choices.glyf == 0 {
@@ -343,10 +459,13 @@ fn replay(cases: &str, out: &str) {
                 for info in e.fonts.iter() {
                     note_boundaries(&mut st.boundaries, &mut st.glyph_counts, info);
                 }
+                note_features(&mut st.features, &e, &choices);
                 for (k, info) in e.fonts.iter().enumerate() {
                     let xg = bytes_of(&c["xglyf"][k]);
                     let xh = bytes_of(&c["xhmtx"][k]);
-                    if info.xglyf != xg || info.xhmtx != xh || info.glyf_transformed != (choices.glyf == 0) || info.hmtx_flags != choices.hmtx {
+                    let want_gt = choices.fgt.get(k).copied().unwrap_or(choices.glyf);
+                    let want_hf = choices.fhf.get(k).copied().unwrap_or(choices.hmtx);
+                    if info.xglyf != xg || info.xhmtx != xh || info.glyf_transformed != (want_gt == 0) || info.hmtx_flags != want_hf {
                         if st.encoder_disagreements.len() < 5 {
                             st.encoder_disagreements.push(json!({"id": c["id"], "font": k, "note": info.note, "spec_glyf": hex(&xg), "harness_glyf": hex(&info.xglyf),
                                 "spec_hmtx": hex(&xh), "harness_hmtx": hex(&info.xhmtx)}));
@@ -449,6 +568,11 @@ fn replay(cases: &str, out: &str) {
                     Err(x) => json!({"err": x}),
                 };
                 bump(&mut st.vectors, "dir_entries", n as u64);
+                if n == 63 {
+                    // all 63 known tags in one directory: by index (one flag byte each) or spelled out
+                    let spelled = dir.len() > 63 * 5;
+                    bump(&mut st.features, if spelled { "dir.all_known_tags_spelled_out" } else { "dir.all_known_tags_by_index" }, 1);
+                }
                 if let Some(fs) = c["exp"]["fonts"].as_array() {
                     if U16_BOUNDS.contains(&fs.len()) {
                         bump(&mut st.boundaries, &format!("u16.collection_fonts={}", fs.len()), 1);
@@ -473,7 +597,7 @@ fn replay(cases: &str, out: &str) {
         "{}",
         json!({"cases": st.cases, "vectors": st.vectors, "mismatches": mism, "triplet_entries_exercised": st.trip_entries.len(),
             "u255_first_bytes_exercised": st.u255_first.len(), "choices": st.choice_counts, "glyph_kinds": st.glyph_kinds,
-            "encoder_disagreements": st.encoder_disagreements, "boundaries": st.boundaries, "lemma_cases": st.lemma_cases, "composites": st.composites,
+            "encoder_disagreements": st.encoder_disagreements, "boundaries": st.boundaries, "lemma_cases": st.lemma_cases, "composites": st.composites, "features": st.features,
             "glyph_counts_transformed": st.glyph_counts.iter().collect::<Vec<_>>()})
     );
 }
@@ -505,8 +629,11 @@ fn random_choices(rng: &mut StdRng, variant: usize) -> Choices {
         u16p: pick(rng, &["short", "word", "alt", "rand"]),
         bbox: pick(rng, &["needed", "all", "rand"]),
         order: pick(rng, &["asis", "bytag", "reverse"]),
-        tags: pick(rng, &["known", "explicit"]),
+        tags: pick(rng, &["known", "explicit", "explicitall"]),
         overlap: rng.gen_bool(0.25),
+        meta: [0u8, 0, 1, 2][rng.gen_range(0..4)],
+        fgt: vec![],
+        fhf: vec![],
         chunk: [65536usize, 1 << 24, 4096, 1 << 20, 50000][rng.gen_range(0..5)] + if rng.gen_bool(0.3) { rng.gen_range(0..1000) } else { 0 },
     }
 }
@@ -907,7 +1034,13 @@ fn record(seed: u64, tier: &str, out: &str) {
                     members.push(pv.clone());
                 }
             }
-            let ch = random_choices(&mut rng, fi);
+            let mut ch = random_choices(&mut rng, fi);
+            // every other collection stores its members with unlike transforms (member k: glyf version, hmtx flags)
+            if fi % 6 == 1 {
+                ch.fgt = (0..members.len()).map(|k| if k % 2 == 0 { 0 } else { 3 }).collect();
+                ch.fhf = (0..members.len()).map(|k| if k % 2 == 0 { 3 } else { 0 }).collect();
+                bump(&mut tally, "collections_mixed_transform", 1);
+            }
             let case = format!("{}#collection", rel);
             bump(&mut tally, "collections", 1);
             record_case(&mut r, &case, &members, &ch, &mut rng, glyph_cap / 2, &mut tally);
@@ -934,7 +1067,7 @@ fn record(seed: u64, tier: &str, out: &str) {
         let src = synth::build(&f, false, 0, 0, 13);
         // (hmtx is left untransformed: an Hmtx event of 65535 glyphs would cost the judge more than it tells)
         for (v, bb) in [(0usize, "needed"), (1, "all")] {
-            let ch = Choices { glyf: 0, hmtx: 0, trip: "ref".into(), u16p: "short".into(), bbox: bb.into(), order: "asis".into(), tags: "known".into(), overlap: v == 1, chunk: 65536 };
+            let ch = Choices { glyf: 0, hmtx: 0, trip: "ref".into(), u16p: "short".into(), bbox: bb.into(), order: "asis".into(), tags: "known".into(), overlap: v == 1, chunk: 65536, meta: 0, fgt: vec![], fhf: vec![] };
             bump(&mut tally, "synthetic_big_fonts", 1);
             record_case(&mut r, &format!("synthetic:{}glyphs#{}", n, v), std::slice::from_ref(&src), &ch, &mut rng, 24, &mut tally);
         }
@@ -1042,6 +1175,29 @@ fn probe() {
         .collect();
     let bytes = enc::assemble_single(&tables, 0x00010000, 65536);
     println!("{}", json!({"hmtx_transform_with_null_glyf_transform": format!("{:?}", obs::decode_tables(&bytes, 0, &[]).map(|t| t.len()))}));
+    // An EMPTY glyph whose bboxBitmap bit is set (and 8 bytes in the bbox stream): the recommendation tells a decoder
+    // to reject the file. No conforming encoder writes this, so it is outside C11's quantifier; what allsorts does:
+    let ch = Choices { glyf: 0, hmtx: 0, trip: "ref".into(), u16p: "short".into(), bbox: "needed".into(), order: "asis".into(), tags: "known".into(), overlap: false, chunk: 65536, meta: 0, fgt: vec![], fhf: vec![] };
+    let mut rng = StdRng::seed_from_u64(1);
+    let mut per: Vec<enc::GlyphStreams> = f.glyphs.iter().map(|g| enc::encode_glyph_streams(g, &ch, &mut rng)).collect();
+    per[0].bit = true;
+    per[0].bb = vec![0, 1, 0, 2, 0, 3, 0, 4];
+    let xglyf = enc::glyf_table_bytes(&per, 0, None);
+    let tables: Vec<DirTable> = src
+        .tables
+        .iter()
+        .map(|(tag, d)| match tag_str(*tag).as_str() {
+            "glyf" => DirTable { tag: *tag, explicit: false, ver: 0, orig_len: d.len() as u32, tlen: Some(xglyf.len() as u32), data: xglyf.clone() },
+            "loca" => DirTable { tag: *tag, explicit: false, ver: 0, orig_len: d.len() as u32, tlen: Some(0), data: vec![] },
+            _ => DirTable { tag: *tag, explicit: false, ver: 0, orig_len: d.len() as u32, tlen: None, data: d.clone() },
+        })
+        .collect();
+    let bytes = enc::assemble_single(&tables, 0x00010000, 65536);
+    let r = obs::decode_tables(&bytes, 0, &[]).and_then(|t| obs::view(&t)).map(|v| v.glyphs.iter().map(rec_json).collect::<Vec<_>>());
+    println!("{}", json!({"empty_glyph_with_bbox_bit_set": format!("{:?}", r.map(|g| json!(g).to_string()))}));
+    // sfnt_version() of the table provider of a collection member (the member's flavor is in the collection directory)
+    let e = enc::encode_woff2(&[src.clone(), synth::build(&f, false, 0, 1, 13)], &ch, &mut rng);
+    println!("{}", json!({"collection_member_sfnt_version": format!("{:?}", obs::member_flavor(&e.bytes, 1).map(|v| format!("{:08x}", v)))}));
 }
 
 fn main() {
